@@ -168,6 +168,14 @@ def identity_check(d):
                 problems.append('surface image %s' % p.image.id)
             if isinstance(p, material.Sampler2D) and not any(q is p.surface for q in e.params):
                 problems.append('sampler surface %s' % p.surface.id)
+        # an id names ONE parameter of the effect, and every map that names it holds that object
+        pids = [p.id for p in e.params if isinstance(getattr(p, 'id', None), str)]
+        if len(pids) != len(set(pids)):
+            problems.append('effect %s holds several parameters with one id: %s' % (e.id, sorted(x for x in set(pids) if pids.count(x) > 1)))
+        for prop in list(e.supported) + ['bumpmap']:
+            v = getattr(e, prop, None)
+            if isinstance(v, material.Map) and not any(q is v.sampler for q in e.params):
+                problems.append('%s of effect %s: its sampler %s is not the parameter of that id' % (prop, e.id, v.sampler.id))
     if d.scene is not None:
         ivs = d.xmlnode.find('%s/%s' % (d.tag('scene'), d.tag('instance_visual_scene')))
         if d.scene is not lib_get(d.scenes, ivs.get('url')[1:]):
